@@ -303,9 +303,12 @@ class Program(object):
                     )
 
                     if isinstance(command.inputs[argument.name], ResultParameter):
-                        references.append(
-                            value.result_name if isinstance(value, Command) else value
-                        )
+                        # A command object that belongs elsewhere (another program, or none) is not a reference to
+                        # this program's command of the same name
+                        if not isinstance(value, Command):
+                            references.append(value)
+                        elif self.commands.get(value.result_name) is value:
+                            references.append(value.result_name)
                     if isinstance(value, (list, tuple)):
                         references += [
                             x for x in flatten(value) if isinstance(x, Command)
